@@ -132,6 +132,18 @@ class C07(Check):
         rival = path_cost(cost_tab, want, q, T, K)
         c.prove('joint_labelling_minimises_within_series_cost',
                 z3.And(rival >= mine, R(res.label_assignment_cost) == mine))
+        # call history: the mask helper asked again, after a joint run over the same lengths, must
+        # still return the mask (a run must not leave anything behind that changes it)
+        c.notes['after_joint_run'] = True
+        ok, tpl = guarded(c, 'template_zero_exactly_on_boundary_pairs',
+                          self.R.data_preparation.label_switching_cost_template, list(lens))
+        if ok:
+            f = [isinstance(tpl, np.ndarray) and tpl.shape == (T,)]
+            if f[0]:
+                for i in range(T - 1):
+                    f.append(stubs.same_terms(tpl[i], 0.0 if i in bp else 1.0))
+            c.prove('template_zero_exactly_on_boundary_pairs', conj(f))
+        c.notes.pop('after_joint_run', None)
 
     def windows(self, c, S, Wmax):
         dp = self.R.data_preparation
